@@ -48,6 +48,7 @@ CONSTANTS TrajOnHit,      \* propagate() assigns _trajectory also when served fr
           CorrKeyState,   \* the correction cache key contains the orbit state (init, period) it was
                           \* computed from, and a hit re-applies the cached correction to the orbit
           SaveOpts,       \* save/load carries the correction options in force
+          LeftoverFix,    \* attributes restored by a load do not linger in the orbit's own __dict__
           Props,          \* set of propagation settings <<steps, method, order>> (strings)
           MaxLen          \* bound on the history length (state constraint)
 
@@ -61,10 +62,16 @@ VARIABLES L,      \* logical state   [init, per, prop, copt]
           dyn,    \* dynamics-service cache: set of <<key, stamp>>
           cor,    \* correction-service cache
           saved,  \* <<>> or <<[L, I]>> : what the file on disk holds
+          left,   \* [traj, stab]: copies of _trajectory/_stability_info that __setstate__ left in the
+                  \* orbit's own __dict__ at the last load (__getstate__ starts from a copy of __dict__
+                  \* and overwrites an entry only when the dynamics service holds a non-None value)
+          alias,  \* TRUE after load_inplace: obj.__dict__.update(tmp.__dict__) leaves obj._domain_obj = tmp,
+                  \* a second orbit sharing obj's services, which is pickled (and its properties
+                  \* evaluated) along with obj by the next save
           last,   \* the last operation: [op, arg, ret, exp, hits]
           hist    \* history of operations with the model's predictions (not part of the VIEW)
 
-vars == <<L, I, dyn, cor, saved, last, hist>>
+vars == <<L, I, dyn, cor, saved, left, alias, last, hist>>
 
 (***************************************************************************)
 (* Values                                                                  *)
@@ -118,6 +125,7 @@ Init ==
     /\ L = [init |-> <<>>, per |-> NoPeriod, prop |-> <<>>, copt |-> DefaultTol]
     /\ I = [init |-> <<>>, per |-> NoPeriod, traj |-> <<>>, stab |-> <<>>, copt |-> DefaultTol]
     /\ dyn = {} /\ cor = {} /\ saved = <<>>
+    /\ left = [traj |-> <<>>, stab |-> <<>>] /\ alias = FALSE
     /\ last = [op |-> "init", arg |-> <<>>, ret |-> Nothing, exp |-> Nothing, hits |-> <<>>]
     /\ hist = <<>>
 
@@ -142,7 +150,7 @@ SetPeriod(v) ==
     /\ LET r == ImplSetPeriod(I, dyn, v) IN I' = r.I /\ dyn' = r.dyn
     /\ L' = LogSetPeriod(L, v)
     /\ Record("SetPeriod", v, Nothing, Nothing, <<>>)
-    /\ UNCHANGED <<cor, saved>>
+    /\ UNCHANGED <<cor, saved, left, alias>>
 
 \* PeriodicOrbit.correct(options) -> _OrbitCorrectionService.correct; o = "default" is options=None
 Correct(o) ==
@@ -160,7 +168,7 @@ Correct(o) ==
                      /\ cor' = Put(cor, k, CorrStamp(x1))
                      /\ Record("Correct", <<o>>, Val(CorrStamp(x1)), Val(CorrStamp(xL)), <<Hit("cor", "correct", FALSE)>>)
         /\ L' = [LogSetPeriod([L EXCEPT !.init = xL], PeriodOf(xL)) EXCEPT !.init = xL]
-        /\ UNCHANGED saved
+        /\ UNCHANGED <<saved, left, alias>>
 
 \* PeriodicOrbit.propagate(steps, method, order)
 Propagate(s) ==
@@ -176,11 +184,11 @@ Propagate(s) ==
                             IF L.per = NoPeriod THEN Raise ELSE Val(TrajStamp(L.init, L.per, s)),
                             <<Hit("dyn", "propagate", h)>>)
     /\ L' = IF L.per = NoPeriod THEN L ELSE [L EXCEPT !.prop = s]
-    /\ UNCHANGED <<cor, saved>>
+    /\ UNCHANGED <<cor, saved, left, alias>>
 
 ReadTrajectory ==
     /\ Record("ReadTrajectory", <<>>, IF I.traj = <<>> THEN Raise ELSE Val(I.traj), FreshTrajectory(L), <<>>)
-    /\ UNCHANGED <<L, I, dyn, cor, saved>>
+    /\ UNCHANGED <<L, I, dyn, cor, saved, left, alias>>
 
 ReadMonodromy ==
     /\ IF I.per = NoPeriod
@@ -188,7 +196,7 @@ ReadMonodromy ==
          ELSE LET g == GetOrCreate(dyn, MonoKey, MonoStamp(I.init, I.per))
               IN  /\ dyn' = g[2]
                   /\ Record("ReadMonodromy", <<>>, Val(g[1]), FreshMonodromy(L), <<Hit("dyn", "monodromy", g[3])>>)
-    /\ UNCHANGED <<L, I, cor, saved>>
+    /\ UNCHANGED <<L, I, cor, saved, left, alias>>
 
 \* _OrbitDynamicsService.compute_stability(): _stability_info assigned inside the factory
 ImplComputeStability(i, d) ==
@@ -201,7 +209,7 @@ ComputeStability ==
          ELSE LET c == ImplComputeStability(I, dyn)
               IN  /\ I' = c.I /\ dyn' = c.dyn
                   /\ Record("ComputeStability", <<>>, Val(c.ret), FreshStability(L), <<Hit("dyn", "stability", c.hit)>>)
-    /\ UNCHANGED <<L, cor, saved>>
+    /\ UNCHANGED <<L, cor, saved, left, alias>>
 
 \* PeriodicOrbit.stability_indices / eigenvalues / eigenvectors: read _stability_info, computing it if None
 ReadStability ==
@@ -214,32 +222,48 @@ ReadStability ==
                   \* a cache hit leaves _stability_info = None and the subscript raises TypeError
                   /\ Record("ReadStability", <<>>, IF c.I.stab = <<>> THEN Raise ELSE Val(c.I.stab),
                             FreshStability(L), <<Hit("dyn", "stability", c.hit)>>)
-    /\ UNCHANGED <<L, cor, saved>>
+    /\ UNCHANGED <<L, cor, saved, left, alias>>
 
 ReadEnergy ==
     /\ Record("ReadEnergy", <<>>, FreshEnergy(I), FreshEnergy(L), <<>>)
-    /\ UNCHANGED <<L, I, dyn, cor, saved>>
+    /\ UNCHANGED <<L, I, dyn, cor, saved, left, alias>>
 ReadPeriod ==
     /\ Record("ReadPeriod", <<>>, FreshPeriod(I), FreshPeriod(L), <<>>)
-    /\ UNCHANGED <<L, I, dyn, cor, saved>>
+    /\ UNCHANGED <<L, I, dyn, cor, saved, left, alias>>
 ReadInit ==
     /\ Record("ReadInit", <<>>, FreshInit(I), FreshInit(L), <<>>)
-    /\ UNCHANGED <<L, I, dyn, cor, saved>>
+    /\ UNCHANGED <<L, I, dyn, cor, saved, left, alias>>
 ReadCorrOpts ==
     /\ Record("ReadCorrOpts", <<>>, FreshCorrOpts(I), FreshCorrOpts(L), <<>>)
-    /\ UNCHANGED <<L, I, dyn, cor, saved>>
+    /\ UNCHANGED <<L, I, dyn, cor, saved, left, alias>>
 
 \* orbit.correction_options = ...
 SetCorrOpts(t) ==
     /\ I' = [I EXCEPT !.copt = t] /\ L' = [L EXCEPT !.copt = t]
     /\ Record("SetCorrOpts", <<t>>, Nothing, Nothing, <<>>)
-    /\ UNCHANGED <<dyn, cor, saved>>
+    /\ UNCHANGED <<dyn, cor, saved, left, alias>>
 
-\* orbit.save(path): pickle of __getstate__ (attributes of the dynamics service copied into the state)
+\* orbit.save(path): pickle of __getstate__.  _HitenBase.__getstate__ evaluates EVERY attribute of
+\* the dynamics service with getattr (properties included) to find "computed properties"; with a
+\* period set this computes the stability information (eigenvalues / eigenvectors / is_stable /
+\* stability_indices, the first one that finds _stability_info = None) and the monodromy as a side
+\* effect; without a period those properties raise ValueError, which __getstate__ swallows.
 Save ==
-    /\ saved' = <<[L |-> L, I |-> I]>>
-    /\ Record("Save", <<>>, Nothing, Nothing, <<>>)
-    /\ UNCHANGED <<L, I, dyn, cor>>
+    LET c  == IF I.per # NoPeriod /\ I.stab = <<>> THEN ImplComputeStability(I, dyn)
+              ELSE [ret |-> <<>>, dyn |-> dyn, hit |-> FALSE, I |-> I]
+        g  == GetOrCreate(c.dyn, MonoKey, MonoStamp(I.init, I.per))
+        hs == (IF I.per # NoPeriod /\ I.stab = <<>> THEN <<Hit("dyn", "stability", c.hit)>> ELSE <<>>)
+              \o (IF I.per # NoPeriod THEN <<Hit("dyn", "monodromy", g[3])>> ELSE <<>>)
+              \o (IF I.per # NoPeriod /\ alias THEN <<Hit("dyn", "monodromy", TRUE)>> ELSE <<>>)
+        \* dir() is sorted, so _stability_info and _trajectory are read BEFORE the properties that
+        \* compute them; a None in the service leaves the entry copied from the orbit's __dict__
+        st == [I EXCEPT !.traj = IF I.traj # <<>> THEN I.traj ELSE left.traj,
+                        !.stab = IF I.stab # <<>> THEN I.stab ELSE left.stab]
+    IN  /\ I' = c.I
+        /\ dyn' = IF I.per # NoPeriod THEN g[2] ELSE dyn
+        /\ saved' = <<[L |-> L, I |-> st]>>
+        /\ Record("Save", <<>>, Nothing, Nothing, hs)
+        /\ UNCHANGED <<L, cor, left, alias>>
 
 \* Class.load(path) / orbit.load_inplace(path): services rebuilt (empty caches, default options),
 \* _initial_state/_period/_trajectory/_stability_info restored onto the new dynamics service
@@ -248,6 +272,8 @@ Load(op) ==
     /\ saved # <<>>
     /\ I' = Loaded(saved[1]) /\ dyn' = {} /\ cor' = {}
     /\ L' = saved[1].L
+    /\ left' = IF LeftoverFix THEN left ELSE [traj |-> saved[1].I.traj, stab |-> saved[1].I.stab]
+    /\ alias' = (op = "LoadInplace")
     /\ Record(op, <<>>, Nothing, Nothing, <<>>)
     /\ UNCHANGED saved
 
@@ -293,7 +319,11 @@ DistinctQuantitiesDistinctKeys ==
 \* "a save/load round trip preserves all observable state"
 Observables(i) == <<i.init, i.per, i.traj, i.stab, i.copt>>
 SaveLoadPreservesObservables ==
-    (last.op \in {"Load", "LoadInplace"}) => (Observables(I) = Observables(saved[1].I) /\ L = saved[1].L)
+    (last.op \in {"Load", "LoadInplace"}) =>
+        /\ L = saved[1].L
+        /\ I.init = L.init /\ I.per = L.per /\ I.copt = L.copt
+        /\ I.traj = (IF L.prop = <<>> THEN <<>> ELSE TrajStamp(L.init, L.per, L.prop))
+        /\ I.stab \in {<<>>, StabStamp(L.init, L.per)}
 
 (***************************************************************************)
 (* Structural invariants of the transcription (hold on the code as it is): *)
@@ -304,6 +334,7 @@ DynCacheCoherent == \A e \in dyn : e[2][2] = I.init /\ e[2][3] = I.per
 AttrCoherent ==
     /\ I.traj # <<>> => (I.traj[2] = I.init /\ I.traj[3] = I.per)
     /\ I.stab # <<>> => I.stab = StabStamp(I.init, I.per)
-\* stability_indices never subscripts None
+\* stability_indices never subscripts None: whenever the stability entry is cached the attribute is set
+StabCachedImpliesAttr == Has(dyn, StabKey) => I.stab # <<>>
 NoNoneSubscript == (last.op = "ReadStability" /\ last.ret = Raise) => I.per = NoPeriod
 =============================================================================
